@@ -391,6 +391,11 @@ class Facts:
         indirect = [f for f in lin if not (f.atoms() & patoms) and (f.atoms() & more)]
         direct.sort(key=lambda f: (-len(f.atoms() & patoms), len(f.terms)))
         pool = direct + indirect
+        if self.known:
+            # facts recorded before an atom they mention was decided (if-then-else shaped facts) are specialised
+            kn = self.known
+            pool = [self.simplify(f) if any(a in kn for a in f.atoms()) else f for f in pool]
+            pool = [f for f in pool if f.const_value() is None]
         if quick_refute:
             # (Houdini candidates only: giving up early merely loses a candidate.) A monomial that pulls the goal far
             # below zero must be cancelled by a fact carrying it with the same sign; if no fact does, stop searching.
@@ -414,6 +419,29 @@ class Facts:
                     if lo is not None and lo >= 0:
                         return ("farkas", [(l, repr(cands[i])) for i, l in zip(combo, lam)])
         return None
+
+    def entails_ge0_split(self, p, max_facts=2, max_coeff=2, use_eq=False):
+        """entails_ge0 with a case split over (at most two) comparison atoms that occur inside p - the shape of
+        min / max / if-then-else values: p >= 0 holds if it holds in every feasible case with that case assumed"""
+        r = self.entails_ge0(p, max_facts, max_coeff, use_eq=use_eq)
+        if r is not None:
+            return r
+        p = self.simplify(p)
+        cand = set(a for a in p.atoms() if is_bool_atom(a) and a[0] in ("ge", "eq"))
+        pat = p.atoms()
+        for f in self.lin:
+            if f.atoms() & pat:
+                cand |= set(a for a in f.atoms() if is_bool_atom(a) and a[0] in ("ge", "eq") and a not in self.known)
+        ats = sorted(cand, key=repr)
+        if not ats or len(ats) > 2:
+            return None
+        for combo in itertools.product((0, 1), repeat=len(ats)):
+            f2 = self.copy()
+            if not all(f2.assume(Poly.atom(a), v) for a, v in zip(ats, combo)):
+                continue
+            if f2.entails_ge0(p, max_facts, max_coeff, use_eq=use_eq) is None:
+                return None
+        return ("split", [repr(a) for a in ats])
 
     def implied_false(self, p):
         """is the 0/1 poly p necessarily 0 on this path? (used to prune infeasible forks)"""
